@@ -1,7 +1,71 @@
-"""which stages decide which property"""
+"""which stages decide which property, and what each claim says"""
+
+FIX_COMMITS = ["88f9d1c"]
+
+TB_VERUS = [
+    "Verus 0.2026.09.13 + Z3 (verifier, encoding of Rust semantics, vstd specs of Vec/String/str/slice iterators/Option/arrays)",
+    "rustc front end of the Verus toolchain",
+    "extraction rules D1 D2 D4 R1 R2 R3a R3b C1 S1 (DESIGN 3.1): fixed textual rewrites, every applied instance listed in coverage.stages[].details.rules_applied",
+]
+TB_CODEC_ENC = [
+    "assume_specification: Option::is_some_and (calls the closure on the payload), std::mem::take (returns the old value), "
+    "String::from_utf8_unchecked (requires ASCII, returns those chars)",
+    "Box<dyn MappingsEncoder> dispatch in create_encoder and the for_each driver loops of encode_mappings/get_map are outside the proof (rule D1 drops the trait)",
+]
+
 PLAN = {
-    "C12": {"level": "proof", "verus_units": ["codec_enc", "codec_dec", "codec_thm"]},
-    "C17": {"level": "proof", "verus_units": ["codec_dec", "codec_enc"]},
-    "C11": {"level": "proof", "verus_units": ["codec_enc"]},
-    "C19": {"level": "proof", "verus_units": ["codec_enc"]},
+    "C12": {
+        "level": "proof",
+        "verus_units": ["codec_enc", "codec_dec", "codec_thm"],
+        "technique": "contract-based deductive verification (Verus) of the real encode_vlq / encoders / MappingsDecoder::next, extracted mechanically each run, plus spec-level round-trip theorems over those contracts",
+        "claim": "Unbounded proof: the real FullMappingsEncoder::encode / LinesOnlyMappingsEncoder::encode / encode_vlq equal the v3 writer spec "
+                 "(enc_bytes/enc_state), the real MappingsDecoder::next equals the byte-level v3 reader dec_next on every byte string, and over those "
+                 "contracts decode(encode(ms)) == kept(ms), attribution is preserved, re-encoding is idempotent and the lines-only writer keeps the "
+                 "first mapped segment per line. All sequence lengths; fields < 2^30 as the property states.",
+        "note": "Trusted: Verus/Z3/vstd; extraction rules; 3 assume_specifications; dyn dispatch and the two-line wrappers encode_mappings/decode_mappings "
+                "are outside the proof; decoder strings < 4 GiB.",
+        "trusted_base": TB_VERUS + TB_CODEC_ENC,
+        "assumptions": ["mapping fields and deltas < 2^30 (requires m_in_dom / es_in_dom)", "encoder input sorted by generated line (requires line <= m.generated_line)",
+                        "mappings string shorter than u32::MAX - 1 bytes (requires of MappingsDecoder::new)"],
+        "not_covered": ["helpers::encode_mappings / decode_mappings wrappers (iterator for_each + Box<dyn> dispatch)", "get_map's use of the encoder"],
+        "design_ref": "DESIGN.md §4/C12",
+    },
+    "C17": {
+        "level": "proof",
+        "verus_units": ["codec_dec", "codec_enc"],
+        "technique": "contract-based deductive verification (Verus): overflow/shift/index/termination obligations of the real decoder and encoders under a representation invariant",
+        "claim": "Partial, unbounded proof: MappingsDecoder::next never overflows, shifts out of range, indexes out of bounds or diverges on any byte string "
+                 "< 4 GiB for any number of calls (struct invariant preserved); encode_vlq and both encoders are panic-free under the C12 domain. "
+                 "JSON parsers, chunk streaming and Rope are not decided.",
+        "note": "Partial: only the decoder/encoder half of the property. Trusted: Verus/Z3/vstd, extraction rules, assume_specifications listed in evidence.",
+        "trusted_base": TB_VERUS + TB_CODEC_ENC,
+        "assumptions": ["mappings string shorter than u32::MAX - 1 bytes", "encoder fields < 2^30, sorted input"],
+        "not_covered": ["SourceMap::from_json/from_slice/from_reader (simd-json)", "every stream_chunks implementation", "Rope methods", "ReplaceSource::source until unit replace_splice lands"],
+        "design_ref": "DESIGN.md §4/C17",
+    },
+    "C11": {
+        "level": "proof",
+        "verus_units": ["codec_enc"],
+        "technique": "contract-based deductive verification (Verus): wire-alphabet invariant on the real encoders, proved independently of the functional contract",
+        "claim": "Partial (clause 4 of 5), unbounded proof: every byte either encoder appends is a base64-VLQ character, ',' or ';' (invariant all_wire on "
+                 "the buffer, established by new, preserved by encode/encode_vlq, and drain returns exactly those bytes), so every mappings string the crate "
+                 "constructs consists only of those characters. Segment ordering, index ranges and announcement order are not decided.",
+        "note": "Partial. Trusted as for C12; that get_map/stream_and_get_source_and_map build `mappings` only through create_encoder->encode*->drain is by reading, not proved.",
+        "trusted_base": TB_VERUS + TB_CODEC_ENC,
+        "assumptions": ["fields < 2^30 (so encode_vlq's precondition holds)"],
+        "not_covered": ["strictly increasing generated positions", "positions before end of source()", "source/name index ranges", "announcement order in chunk streams"],
+        "design_ref": "DESIGN.md §4/C11",
+    },
+    "C19": {
+        "level": "proof",
+        "verus_units": ["codec_enc"],
+        "technique": "contract-based deductive verification (Verus): the unsafe call's safety precondition as a `requires` on its assume_specification, discharged from the wire-alphabet invariant",
+        "claim": "Partial, unbounded proof: both String::from_utf8_unchecked call sites (encoder.rs drain x2) are reached only with ASCII bytes. "
+                 "Rope get_unchecked sites, WithIndices and the lifetime transmutes are not decided by this stage.",
+        "note": "Partial. The `requires` (all bytes < 128) on from_utf8_unchecked is a strengthening of its documented safety condition (valid UTF-8).",
+        "trusted_base": TB_VERUS + TB_CODEC_ENC,
+        "assumptions": ["fields < 2^30"],
+        "not_covered": ["rope.rs get_unchecked (6 sites)", "WithIndices::substring get_unchecked", "lifetime-extending transmutes", "concurrent use"],
+        "design_ref": "DESIGN.md §4/C19",
+    },
 }
